@@ -244,6 +244,7 @@ fn get_swap_transactions<C: ContentAddrStore>(state: &UnsealedState<C>) -> Vec<T
         .filter_map(|tx| {
             (tx.kind == TxKind::Swap).then_some(())?; // only swap transactions are swap requests
             (!tx.outputs.is_empty()).then_some(())?; // ensure not empty
+            (tx.outputs[0].value.0 > 0).then_some(())?; // nothing to swap (and the pro-rata share would divide by zero)
             state.coins.get_coin(tx.output_coinid(0))?; // ensure that first output is unspent
             let pool_key = request_pool_key(&tx.data)?; // ensure that data contains a pool key
             state.pools.get(&pool_key)?; // ensure that pool key points to a valid pool
@@ -352,6 +353,8 @@ fn get_deposit_transactions<C: ContentAddrStore>(state: &UnsealedState<C>) -> Ve
                 && state.coins.get_coin(tx.output_coinid(1)).is_some())
             .then_some(())?;
             let pool_key = request_pool_key(&tx.data)?;
+            // a side worth nothing deposits nothing (and the share computation would divide by zero)
+            (tx.outputs[0].value.0 > 0 && tx.outputs[1].value.0 > 0).then_some(())?;
             (tx.outputs[0].denom == pool_key.left() && tx.outputs[1].denom == pool_key.right())
                 .then_some(tx)
         })
@@ -434,6 +437,7 @@ fn get_withdrawal_transactions<C: ContentAddrStore>(state: &UnsealedState<C>) ->
             .then_some(())?;
             let pool_key = request_pool_key(&tx.data)?;
             state.pools.get(&pool_key)?;
+            (tx.outputs[0].value.0 > 0).then_some(())?; // nothing to redeem (and the share would divide by zero)
             (tx.outputs[0].denom == pool_key.liq_token_denom()).then_some(tx)
         })
         .collect::<Vec<_>>()
